@@ -138,6 +138,9 @@ def to_value(v, groups=None):
         # the value of a key set: one list (or tuple) per event
         row = [to_value(x, groups) for x in v['row']]
         return tuple(row) if v.get('as') == 'tuple' else row
+    if isinstance(v, dict) and 'degrees' in v:
+        # a scale spec as the value of a Pbind column (round 10)
+        return to_scale(v)
     if isinstance(v, str) and v == 'groupobj':
         return groups['obj']
     if isinstance(v, str) and v == 'inf':
@@ -1500,6 +1503,27 @@ def pitch_key(prefix, key, res, ev):
     return f'C14/{prefix}/{key}/from-{res.pitch_source}'
 
 
+def ignored_pitch_key(ev, attr, got):
+    """Round 10 diagnosis for events whose pitch keys are a minimal key set
+    (one to three input keys of the chain): the input key without which the
+    MODEL gives the value the library returned - that key was ignored.
+    attr: 'note' | 'midinote' | 'freq' | 'detuned'.  None: no single key."""
+    from vf import c14_gen as gen
+    given = [k for k in ev if k in gen.PITCH_INPUTS]
+    if not 1 <= len(given) <= 3:
+        return None
+    for k in sorted(given):
+        ev2 = {k_: v for k_, v in ev.items() if k_ != k}
+        try:
+            if close(float(got), float(getattr(me.resolve(ev2), attr))):
+                return ('C14/pitch-input-key-ignored/' + k + '/given-'
+                        + ('alone' if len(given) == 1 else
+                           'with-other-pitch-keys'))
+        except Exception:       # noqa
+            pass
+    return None
+
+
 def _compare_controls(n, args, largs, acc, mon, what):
     bad = []
     pr = _pairs(args)
@@ -1547,6 +1571,8 @@ def _compare_controls(n, args, largs, acc, mon, what):
                     _pitch_class(res, ev):
                 # an object that was played before: pitch not resolved anew
                 key = 'C14/play/replayed-event-pitch-not-resolved-anew'
+            elif name == 'freq' and ignored_pitch_key(ev, 'detuned', v64):
+                key = ignored_pitch_key(ev, 'detuned', v64)
             elif name == 'freq':
                 key = pitch_key(f'{mon_name(mon)}/control-value/{what}', 'freq',
                                 res, ev)
